@@ -156,6 +156,31 @@ pub struct KnownFinding {
     pub replay: Option<String>,
 }
 
+/// `*` in a known-finding signature matches any run of characters.
+pub fn sig_matches(pattern: &str, sig: &str) -> bool {
+    if !pattern.contains('*') {
+        return pattern == sig;
+    }
+    let parts: Vec<&str> = pattern.split('*').collect();
+    let mut pos = 0usize;
+    for (i, part) in parts.iter().enumerate() {
+        if i == 0 {
+            if !sig.starts_with(part) {
+                return false;
+            }
+            pos = part.len();
+        } else if i == parts.len() - 1 {
+            return sig.len() >= pos + part.len() && sig[pos..].ends_with(part);
+        } else {
+            match sig[pos..].find(part) {
+                Some(k) => pos += k + part.len(),
+                None => return false,
+            }
+        }
+    }
+    true
+}
+
 pub fn load_known() -> Vec<KnownFinding> {
     let p = verif_dir().join("known_findings.json");
     match std::fs::read_to_string(&p) {
@@ -282,10 +307,12 @@ pub fn run_batch<R: Rig>(rig: &R, opts: &BatchOpts) -> BatchResult {
     let mut exit = 0;
     let mut violations_reported = 0;
     let mut known_hit: Vec<String> = Vec::new();
+    let mut known_counts: BTreeMap<usize, (u64, u64)> = BTreeMap::new();
     let mut sigs: Vec<String> = agg.found.keys().cloned().collect();
     sigs.sort();
     let replay_dir = verif_dir().join("replays");
     let _ = std::fs::create_dir_all(&replay_dir);
+    let mut shrunk = 0;
     for sig in sigs {
         let mut founds = agg.found.remove(&sig).unwrap();
         founds.sort_by_key(|f| f.idx);
@@ -296,14 +323,17 @@ pub fn run_batch<R: Rig>(rig: &R, opts: &BatchOpts) -> BatchResult {
             exit = 2;
             continue;
         }
-        let k = known.iter().find(|k| k.property == prop && k.signature == sig && k.status == "known");
-        if let Some(k) = k {
-            println!("KNOWN-FINDING: property={} {} [signature {} ; {} of {} runs]", prop, k.what_fails, sig, count, n);
+        let k = known.iter().position(|k| k.property == prop && sig_matches(&k.signature, &sig) && k.status == "known");
+        if let Some(ki) = k {
+            let e = known_counts.entry(ki).or_insert((0u64, 0u64));
+            e.0 += count;
+            e.1 += 1;
             known_hit.push(sig.clone());
             continue;
         }
-        // shrink and write replay
-        let (sc_min, tape_min, v_min, hash, narrative) = shrink(rig, &f.sc, &f.tape, &f.v);
+        // shrinking is bounded: the first few signatures get the full treatment
+        shrunk += 1;
+        let (sc_min, tape_min, v_min, hash, narrative) = shrink(rig, &f.sc, &f.tape, &f.v, if shrunk <= 6 { 400 } else { 0 });
         let fname = format!("{}-{}-{}.json", prop, f.idx, sanitize(&sig));
         let path = replay_dir.join(&fname);
         let rf = ReplayFile {
@@ -329,6 +359,10 @@ pub fn run_batch<R: Rig>(rig: &R, opts: &BatchOpts) -> BatchResult {
         }
     }
 
+    for (ki, (count, nsig)) in &known_counts {
+        let k = &known[*ki];
+        println!("KNOWN-FINDING: property={} {} [entry {} ; {} distinct signature(s) ; {} of {} runs]", prop, k.what_fails, k.signature, nsig, count, n);
+    }
     let wall = t0.elapsed().as_secs_f64();
     if opts.write_evidence {
         let mut faults = serde_json::Map::new();
@@ -480,7 +514,7 @@ impl<Sc> Agg<Sc> {
 }
 
 /// Greedy delta-debugging: keep a simplification only if the same signature reproduces.
-fn shrink<R: Rig>(rig: &R, sc: &R::Sc, tape: &[u32], v: &Violation) -> (R::Sc, Vec<u32>, Violation, u64, Vec<String>) {
+fn shrink<R: Rig>(rig: &R, sc: &R::Sc, tape: &[u32], v: &Violation, budget0: u32) -> (R::Sc, Vec<u32>, Violation, u64, Vec<String>) {
     let sig = v.signature();
     let t0 = Instant::now();
     let mut cur = sc.clone();
@@ -493,14 +527,14 @@ fn shrink<R: Rig>(rig: &R, sc: &R::Sc, tape: &[u32], v: &Violation) -> (R::Sc, V
         println!("HARNESS WARNING: violation {} did not reproduce from its recorded tape", sig);
         return (cur, cur_tape, v.clone(), 0, vec![]);
     }
-    let mut budget = 400;
+    let mut budget = budget0;
     'outer: loop {
-        if t0.elapsed().as_secs() > 60 || budget == 0 {
+        if t0.elapsed().as_secs() > 20 || budget == 0 {
             break;
         }
         // simplest schedule first
         for cand_tape in [Vec::new(), cur_tape[..cur_tape.len() / 2].to_vec()] {
-            if cand_tape.len() >= cur_tape.len() {
+            if cand_tape.len() >= cur_tape.len() || budget == 0 {
                 continue;
             }
             budget -= 1;
@@ -562,7 +596,7 @@ pub fn replay<R: Rig>(rig: &R, path: &str) -> i32 {
             println!("replayed: signature {} reproduced; trace hash {:016x} ({})", rf.signature, rep.trace_hash, if rep.trace_hash == rf.trace_hash { "identical to the recorded run" } else { "DIFFERS from the recorded run" });
             println!("  detail: {}", truncate(&v.detail, 2000));
             let known = load_known();
-            if let Some(k) = known.iter().find(|k| k.property == rf.property && k.signature == rf.signature && k.status == "known") {
+            if let Some(k) = known.iter().find(|k| k.property == rf.property && sig_matches(&k.signature, &rf.signature) && k.status == "known") {
                 println!("KNOWN-FINDING: property={} {}", rf.property, k.what_fails);
                 0
             } else {
